@@ -442,3 +442,61 @@ def vdw_radii(repo):
             'From Coq Require Import List String QArith.', 'Import ListNotations.',
             'Definition vdw_radii : list (string * Q) := [%s].' % ';\n  '.join(items)]
     return 'Radii.v', '\n'.join(text) + '\n'
+
+
+# ---------------------------------------------------------------------------
+# C13: registered section paths and context-opening headers of the force-field reader
+def _section_paths(cls_node):
+    paths = []
+    for f in cls_node.body:
+        if isinstance(f, ast.FunctionDef):
+            for dec in f.decorator_list:
+                if isinstance(dec, ast.Call) and isinstance(dec.func, ast.Attribute) and dec.func.attr == 'section_parser':
+                    names = []
+                    for a in dec.args:
+                        v = _const_str(a)
+                        if v is None:
+                            raise ExtractError('non-literal section name in %s' % f.name)
+                        names.append(v)
+                    ctx = [_const_str(k.value) for k in dec.keywords if k.arg == 'context_type']
+                    paths.append((tuple(names), f.name, ctx[0] if ctx else ''))
+    return paths
+
+
+@extractor
+def ff_sections(repo):
+    tree = ast.parse(open(os.path.join(repo, 'vermouth', 'ffinput.py')).read())
+    cls = [n for n in tree.body if isinstance(n, ast.ClassDef) and n.name == 'FFDirector']
+    if len(cls) != 1:
+        raise ExtractError('FFDirector')
+    paths = _section_paths(cls[0])
+    base = ast.parse(open(os.path.join(repo, 'vermouth', 'parser_utils.py')).read())
+    bcls = [n for n in base.body if isinstance(n, ast.ClassDef) and n.name == 'SectionLineParser']
+    paths += _section_paths(bcls[0])
+    init = [f for f in cls[0].body if isinstance(f, ast.FunctionDef) and f.name == '__init__'][0]
+    acts = [n.value for n in ast.walk(init) if isinstance(n, ast.Assign) and isinstance(n.targets[0], ast.Attribute)
+            and n.targets[0].attr == 'header_actions']
+    if len(acts) != 1 or not isinstance(acts[0], ast.Dict):
+        raise ExtractError('header_actions')
+    actions = []
+    for k, v in zip(acts[0].keys, acts[0].values):
+        if not (isinstance(k, ast.Tuple) and all(_const_str(e) is not None for e in k.elts) and isinstance(v, ast.Attribute)):
+            raise ExtractError('header_actions entry')
+        actions.append((tuple(_const_str(e) for e in k.elts), v.attr))
+    nat = [n.value for n in cls[0].body if isinstance(n, ast.Assign) and isinstance(n.targets[0], ast.Name)
+           and n.targets[0].id == 'interactions_natoms']
+    if len(nat) != 1 or not isinstance(nat[0], ast.Dict):
+        raise ExtractError('interactions_natoms')
+    natoms = [(_const_str(k), int(v.value)) for k, v in zip(nat[0].keys, nat[0].values)]
+
+    def path_lit(p):
+        return '[%s]' % '; '.join(coq_str(x) for x in p)
+    text = ['(* GENERATED by vlib/extract.py from /repo: do not edit *)',
+            'From Coq Require Import List String NArith.', 'Import ListNotations.',
+            'Definition ff_sections : list (list string * string * string) := [',
+            ';\n'.join('  (%s, %s, %s)' % (path_lit(p), coq_str(f), coq_str(c)) for p, f, c in sorted(set(paths)))
+            , '].',
+            'Definition ff_header_actions : list (list string * string) := [%s].' % '; '.join(
+                '(%s, %s)' % (path_lit(p), coq_str(a)) for p, a in actions),
+            'Definition ff_natoms : list (string * N) := [%s].' % '; '.join('(%s, %d%%N)' % (coq_str(k), v) for k, v in natoms)]
+    return 'FFSections.v', '\n'.join(text) + '\n'
